@@ -28,12 +28,15 @@ META["text"] += ' R3 also: the node function has exactly its four parameters, no
 META["text"] += ' R3 decides by short-circuit paths with three-valued decisions (a merged `if prune or not S` is read as its two cases). R5 also: every assertion of a type is appended (nothing before the append can leave the iteration) and the candidate list is a map over the ids handed in.'
 META["text"] += ' R5 also: the trees are built over the candidate ids as given (no conversion, no re-binding), read per element of the list handed in.'
 META["text"] += ' R5 also: the assertion_json entry of an assertion is found by its position in the log.'
+META["text"] += ' (R6, N, frame condition on arguments) the tree is a function of the log it is given, and the log is the same after it was drawn: every function in scope changes the objects it is handed only in the ways confirmed for it (aud.ARG_EFFECTS); references are followed through aliases, elements, attributes, loop variables, .get/.items/.values and np.asarray, resolved by the bindings that reach the use.'
 
 
 from ..canon import expand_locals  # noqa: E402
 
 
 def run(chk):
+    from .. import aud as _aud8
+    _aud8.argument_effects(chk, 'C20.R6', 'shangrla/core/IRVVisualisationUtils.py', 'the tree is a function of the log it is given, and the log is the same after it was drawn', only=None)
     chk.explain("R1/R2 prune tests as decision tables; R3 complete, non-aliasing recursion and leaf rendering; R4 own-index tags; R5 "
                 "translation of assertion JSON into pruning tuples.")
     chk.trust("symx decision tables", "set equality / membership semantics of Python sets")
